@@ -87,6 +87,13 @@ func namedTypes() []ty {
 		}},
 		{expr: "MyInt", kind: "named-local", jsonSafe: true, lit: func(t *rapid.T) string { return "MyInt(" + intLit(t) + ")" }},
 		{expr: "MyStr", kind: "named-local", jsonSafe: true, lit: func(t *rapid.T) string { return "MyStr(" + strLit(t) + ")" }},
+		{expr: "rf.Type", kind: "named-import-alias", lit: func(t *rapid.T) string {
+			return rapid.SampledFrom([]string{"nil", "rf.TypeOf(1)", `rf.TypeOf("s")`}).Draw(t, "rftype")
+		}},
+		{expr: "struct{ A int; B fp.Option[string] }", kind: "inline-struct", imports: []string{"github.com/csgura/fp", "github.com/csgura/fp/option"}, lit: func(t *rapid.T) string {
+			return "struct{ A int; B fp.Option[string] }{A: " + intLit(t) + ", B: option.Some(" + strLit(t) + ")}"
+		}},
+		{expr: "fp.Future[int]", kind: "fp.Future", imports: []string{"github.com/csgura/fp"}, lit: func(t *rapid.T) string { return "fp.Future[int]{}" }},
 		{expr: "Inner", kind: "named-struct", lit: func(t *rapid.T) string { return "Inner{IA: " + intLit(t) + ", ib: " + strLit(t) + "}" }},
 	}
 }
@@ -322,6 +329,7 @@ type structSpec struct {
 	str       bool
 	allArgs   bool
 	docOnSpec bool // comment on the TypeSpec inside a type ( ... ) group
+	multiName bool // `a, b T` declarations where neighbours share a type
 	handGet   string
 	handWith  string
 	handBuild string
@@ -462,6 +470,16 @@ func drawStruct(t *rapid.T, idx int, exclFragile map[string]bool, forceJson bool
 			s.handBuild = f.name
 		}
 	}
+	s.multiName = rapid.IntRange(0, 2).Draw(t, "multiName") == 0
+	if s.multiName {
+		// make some neighbours share their type (and drop their tags) so that `a, b T` declarations appear
+		for i := 1; i < len(s.fields); i++ {
+			if !s.fields[i].embedded && !s.fields[i-1].embedded && rapid.Bool().Draw(t, "shareType") {
+				s.fields[i].t = s.fields[i-1].t
+				s.fields[i].tag, s.fields[i-1].tag = "", ""
+			}
+		}
+	}
 	nv := rapid.IntRange(2, 3).Draw(t, "nvalues")
 	for v := 0; v < nv; v++ {
 		var lits []string
@@ -569,7 +587,7 @@ func (p pkgSpec) source() string {
 	for _, i := range il {
 		fmt.Fprintf(&sb, "\t%q\n", i)
 	}
-	sb.WriteString(")\n\nvar errSentinel = errors.New(\"sentinel\")\nvar _ = fmt.Sprint\nvar _ = time.Second\nvar _ fp.Unit\nvar _ = option.None[int]\n")
+	sb.WriteString("\trf \"reflect\"\n)\n\nvar errSentinel = errors.New(\"sentinel\")\nvar _ = fmt.Sprint\nvar _ = time.Second\nvar _ fp.Unit\nvar _ = option.None[int]\nvar _ = rf.TypeOf\n")
 	// make sure the blank uses compile
 	for _, need := range []string{"fmt", "time", "github.com/csgura/fp", "github.com/csgura/fp/option"} {
 		if !imports[need] {
@@ -582,15 +600,22 @@ func (p pkgSpec) source() string {
 		body := func() string {
 			var b strings.Builder
 			fmt.Fprintf(&b, "%s%s struct {\n", s.name, s.typeParamsDecl())
-			for _, f := range s.fields {
+			for i := 0; i < len(s.fields); i++ {
+				f := s.fields[i]
 				if f.embedded {
 					fmt.Fprintf(&b, "\t%s\n", f.t.expr)
 					continue
 				}
+				// consecutive untagged fields of one type may share a declaration: `a, b T`
+				names := f.name
+				for s.multiName && f.tag == "" && i+1 < len(s.fields) && !s.fields[i+1].embedded && s.fields[i+1].tag == "" && s.fields[i+1].t.expr == f.t.expr {
+					i++
+					names += ", " + s.fields[i].name
+				}
 				if f.tag != "" {
-					fmt.Fprintf(&b, "\t%s %s `%s`\n", f.name, f.t.expr, f.tag)
+					fmt.Fprintf(&b, "\t%s %s `%s`\n", names, f.t.expr, f.tag)
 				} else {
-					fmt.Fprintf(&b, "\t%s %s\n", f.name, f.t.expr)
+					fmt.Fprintf(&b, "\t%s %s\n", names, f.t.expr)
 				}
 			}
 			b.WriteString("}\n")
@@ -683,7 +708,7 @@ func nilable(t ty) bool {
 // cases renders zz_cases_test.go
 func (p pkgSpec) cases(maxProduct int) string {
 	var sb strings.Builder
-	sb.WriteString("package pa\n\nimport (\n\t\"fmt\"\n\t\"time\"\n\t\"github.com/csgura/fp\"\n\t\"github.com/csgura/fp/option\"\n)\n\nvar _ = fmt.Sprint\nvar _ = time.Second\nvar _ fp.Unit\nvar _ = option.None[int]\n\n")
+	sb.WriteString("package pa\n\nimport (\n\t\"fmt\"\n\trf \"reflect\"\n\t\"time\"\n\t\"github.com/csgura/fp\"\n\t\"github.com/csgura/fp/option\"\n)\n\nvar _ = fmt.Sprint\nvar _ = time.Second\nvar _ fp.Unit\nvar _ = option.None[int]\nvar _ = rf.TypeOf\n\n")
 	up := func(n string) string { return strings.ToUpper(n[:1]) + n[1:] }
 	for _, s := range p.structs {
 		if s.json {
